@@ -1421,3 +1421,134 @@ func ruleToNumberBase(c *Ctx) {
 	c.Sites++
 	c.check(bad == nil, R, "parseNumber:numerals-not-cut-at-64-bits", pos, "the numeral reader uses no fixed-width integer parser", "parseNumber converts with a fixed-width integer parser (strconv.ParseUint/ParseInt): a hexadecimal numeral of more than 16 digits (0x10000000000000000) is rejected by the lexer, tonumber and coercion instead of denoting 2^64")
 }
+
+// ruleFormatAsPrintf: F86. (a) LNumber.Format hands the argument of %o, %x, %X to package fmt as an
+// unsigned integer (C converts it; fmt prints a signed -1 as "-1"); (b) under %e/%f/%g an infinity or
+// NaN does not reach package fmt (which spells +Inf/NaN); (c) defaultFormat does not hand a string under
+// %s to package fmt (fmt counts runes for width and precision, C counts bytes); (d) strFormat raises
+// when a directive has no argument.
+func ruleFormatAsPrintf(c *Ctx) {
+	const R = "R15-flags"
+	p := c.P
+	df := c.need(R, "lua", "defaultFormat")
+	nf := c.need(R, "lua", "(LNumber).Format")
+	if df == nil || nf == nil {
+		return
+	}
+	var verb *ssa.Parameter
+	for _, pm := range nf.Params {
+		if b, ok := pm.Type().Underlying().(*types.Basic); ok && b.Kind() == types.Int32 {
+			verb = pm
+		}
+	}
+	if verb == nil {
+		c.und(R, "LNumber.Format:verb-parameter", p.pos(nf.Pos()), "no rune parameter")
+		return
+	}
+	for _, v := range []rune{'o', 'x', 'X'} {
+		reach := reachGiven(nf, func(x ssa.Value) (aval, bool) {
+			if x == ssa.Value(verb) {
+				return aInt(int64(v)), true
+			}
+			return aval{}, false
+		})
+		n, okc := 0, true
+		for _, cl := range callsTo(nf, df) {
+			if !reach[cl] {
+				continue
+			}
+			n++
+			arg := stripMI(cl.Call.Args[0])
+			b, isB := arg.Type().Underlying().(*types.Basic)
+			if !isB || b.Info()&types.IsUnsigned == 0 {
+				okc = false
+			}
+		}
+		c.Sites++
+		c.check(n > 0 && okc, R, fmt.Sprintf("LNumber.Format:%%%c:unsigned-conversion", v), p.pos(nf.Pos()), "the value handed to package fmt is an unsigned integer", fmt.Sprintf("LNumber.Format hands a signed integer to package fmt for %%%c: string.format('%%%c', -1) prints -1 where C's printf (and Lua) print the two's complement ffffffffffffffff", v, v))
+	}
+	for _, v := range []rune{'e', 'f', 'g'} {
+		reach := reachGiven(nf, func(x ssa.Value) (aval, bool) {
+			if x == ssa.Value(verb) {
+				return aInt(int64(v)), true
+			}
+			if pk, n, ok := stdCallV(x); ok && pk == "math" && n == "IsInf" {
+				return aBool(true), true
+			}
+			return aval{}, false
+		})
+		okc := true
+		for _, cl := range callsTo(nf, df) {
+			if reach[cl] {
+				okc = false
+			}
+		}
+		c.Sites++
+		c.check(okc, R, fmt.Sprintf("LNumber.Format:%%%c:non-finite-not-through-fmt", v), p.pos(nf.Pos()), "an infinity is spelled by the library itself", fmt.Sprintf("LNumber.Format hands an infinity to package fmt under %%%c: it is spelled +Inf (NaN for a NaN) where C's printf writes inf and nan", v))
+	}
+	// (c) defaultFormat: a string under 's' never reaches fmt.Fprintf
+	{
+		var verb *ssa.Parameter
+		for _, pm := range df.Params {
+			if b, ok := pm.Type().Underlying().(*types.Basic); ok && b.Kind() == types.Int32 {
+				verb = pm
+			}
+		}
+		reach := reachGiven(df, func(x ssa.Value) (aval, bool) {
+			if verb != nil && x == ssa.Value(verb) {
+				return aInt('s'), true
+			}
+			if ex, ok := x.(*ssa.Extract); ok && ex.Index == 1 {
+				if ta, ok := ex.Tuple.(*ssa.TypeAssert); ok {
+					if b, ok := ta.AssertedType.Underlying().(*types.Basic); ok && b.Kind() == types.String {
+						return aBool(true), true
+					}
+				}
+			}
+			return aval{}, false
+		})
+		okc := verb != nil
+		allInstrs(df, func(in ssa.Instruction) {
+			if pk, n, ok := stdCall(in); ok && pk == "fmt" && (n == "Fprintf" || n == "Sprintf") && reach[in] {
+				okc = false
+			}
+		})
+		c.Sites++
+		c.check(okc, R, "defaultFormat:%s-of-a-string-pads-by-bytes", p.pos(df.Pos()), "a string under %s is padded and cut by the library itself", "defaultFormat hands a string under %s to package fmt, which counts runes for width and precision: string.format('%5s', 'é') gets four blanks instead of three and '%.1s' keeps a whole multi-byte character")
+	}
+	// (d) strFormat: too few arguments raise
+	if sf := c.need(R, "lua", "strFormat"); sf != nil {
+		g := p.G(sf)
+		argErr := p.Fn("lua", "(*LState).ArgError")
+		okc := false
+		for _, cl := range callsTo(sf, argErr) {
+			for _, cd := range g.CondsAtInstr(cl) {
+				b, ok := cd.V.(*ssa.BinOp)
+				if !ok {
+					continue
+				}
+				hasLen := false
+				for _, op := range []ssa.Value{b.X, b.Y} {
+					if lc, ok := stripConv(op).(*ssa.Call); ok {
+						if bi, ok := lc.Call.Value.(*ssa.Builtin); ok && bi.Name() == "len" {
+							hasLen = true
+						}
+					}
+				}
+				if hasLen {
+					okc = true
+				}
+			}
+		}
+		c.Sites++
+		c.check(okc, R, "strFormat:directive-without-argument-raises", p.pos(sf.Pos()), "the number of directives is compared with the number of arguments and the shortfall raises", "string.format does not raise when a directive has no argument: string.format('%d') returns the text '%!d(MISSING)'")
+	}
+}
+
+func stdCallV(v ssa.Value) (string, string, bool) {
+	in, ok := v.(ssa.Instruction)
+	if !ok {
+		return "", "", false
+	}
+	return stdCall(in)
+}
